@@ -3,8 +3,9 @@ package chainkit
 import (
 	"errors"
 	"fmt"
-	"strings"
 	"math/big"
+	"sort"
+	"strings"
 
 	"github.com/nspcc-dev/neo-go/pkg/core/block"
 	"github.com/nspcc-dev/neo-go/pkg/core/fee"
@@ -59,6 +60,7 @@ type Action struct {
 	VUB    uint32   `json:"vub,omitempty"`    // added to height+1
 	GasAdj int64    `json:"gasadj,omitempty"` // added to the measured system fee (negative: run out of gas)
 	Scope  int      `json:"scope,omitempty"`  // 0 Global, 1 CalledByEntry, 2 None
+	Inner  *Action  `json:"inner,omitempty"`  // notary_assisted: the action whose script the transaction carries
 }
 
 // BlockSpec is one block of a history.
@@ -82,6 +84,8 @@ type Builder struct {
 	Deployed []Deployed
 	TxHashes []util.Uint256 // hashes of all txs built so far (for Conflicts references)
 	Rejected map[string]int // admission rejections by error class
+	Flow     map[string]int // blocks per flow label (see Flows): oracle responses, notary-assisted transactions
+	Excluded int            // actions not built because their shape is a listed known finding (see flows.go)
 	nvariant int
 }
 
@@ -91,7 +95,7 @@ func NewBuilder(chain ChainCfg) (*Builder, error) {
 	if err != nil {
 		return nil, err
 	}
-	return &Builder{N: n, Rejected: map[string]int{}}, nil
+	return &Builder{N: n, Rejected: map[string]int{}, Flow: map[string]int{}}, nil
 }
 
 // Close stops the builder node.
@@ -346,7 +350,14 @@ func (b *Builder) MakeScript(a Action) ([]byte, []int, error) {
 			return nil, nil, errors.New("no contract deployed")
 		}
 		d := b.Deployed[((a.A%len(b.Deployed))+len(b.Deployed))%len(b.Deployed)]
-		call(d.Hash, "call", nativehashes.OracleContract, "request", int64(callflag.All), []any{"https://x.example/" + a.S, nil, "notify", []byte(a.V), int64(10000000)})
+		// B selects the callback: 0 "notify" (1 parameter: the response finds no method with 4 and FAULTs), 1 oracleCb
+		// (writes a storage item, emits an event), 2 oracleCbFail (the same, then throws). N = gas for the response (0: the minimum).
+		gfr := a.N
+		if gfr == 0 {
+			gfr = 10000000
+		}
+		cb := OracleCallbacks[((a.B%len(OracleCallbacks))+len(OracleCallbacks))%len(OracleCallbacks)]
+		call(d.Hash, "call", nativehashes.OracleContract, "request", int64(callflag.All), []any{"https://x.example/" + a.S, nil, cb, []byte(a.V), gfr})
 	case "raw": // V = raw script
 		w.WriteBytes(a.V)
 	case "throw":
@@ -377,10 +388,18 @@ type txSigner struct {
 	actor    *Actor
 	contract bool
 	hash     util.Uint160
+	// contract signers whose `verify` takes arguments: the invocation script (nil: empty)
+	inv func(tx *transaction.Transaction) []byte
 }
 
 // MakeTx builds, prices and signs the transaction of an action against the builder's current state.
 func (b *Builder) MakeTx(a Action) (*transaction.Transaction, error) {
+	switch a.Kind {
+	case "oracle_response":
+		return b.makeOracleResponse(a)
+	case "notary_assisted":
+		return b.makeNotaryAssisted(a)
+	}
 	script, extra, err := b.MakeScript(a)
 	if err != nil {
 		return nil, err
@@ -490,7 +509,11 @@ func (b *Builder) AddNetworkFee(tx *transaction.Transaction, signers []txSigner)
 			}
 			ic.UseSigners(tx.Signers)
 			ic.VM.SetGasLimit(bc.GetMaxVerificationGAS())
-			if err := bc.InitVerificationContext(ic, s.hash, &transaction.Witness{}); err != nil {
+			wit := &transaction.Witness{}
+			if s.inv != nil {
+				wit.InvocationScript = s.inv(&txc) // the signature is not final yet: only its size and its cost matter here
+			}
+			if err := bc.InitVerificationContext(ic, s.hash, wit); err != nil {
 				ic.Finalize()
 				return err
 			}
@@ -501,7 +524,7 @@ func (b *Builder) AddNetworkFee(tx *transaction.Transaction, signers []txSigner)
 				return err
 			}
 			tx.NetworkFee += gas
-			size += io.GetVarSize([]byte{}) * 2
+			size += io.GetVarSize(wit.InvocationScript) + io.GetVarSize([]byte{})
 			continue
 		}
 		nf, sd := fee.Calculate(base, s.actor.Ver)
@@ -517,7 +540,11 @@ func (b *Builder) Sign(tx *transaction.Transaction, signers []txSigner) {
 	tx.Scripts = tx.Scripts[:0]
 	for _, s := range signers {
 		if s.contract {
-			tx.Scripts = append(tx.Scripts, transaction.Witness{InvocationScript: []byte{}, VerificationScript: []byte{}})
+			inv := []byte{}
+			if s.inv != nil {
+				inv = s.inv(tx)
+			}
+			tx.Scripts = append(tx.Scripts, transaction.Witness{InvocationScript: inv, VerificationScript: []byte{}})
 			continue
 		}
 		tx.Scripts = append(tx.Scripts, transaction.Witness{InvocationScript: s.actor.Invocation(tx), VerificationScript: s.actor.Ver})
@@ -613,9 +640,11 @@ func (b *Builder) BuildBlock(spec BlockSpec) ([]byte, *block.Block, error) {
 	if err != nil {
 		return nil, nil, err
 	}
+	deposits := NotaryDeposits(bc)
 	if err := bc.AddBlock(blk); err != nil {
 		return nil, nil, fmt.Errorf("builder rejected its own block %d: %w", blk.Index, err)
 	}
+	b.NoteFlows(blk, deposits)
 	for _, tx := range txs {
 		b.TxHashes = append(b.TxHashes, tx.Hash())
 	}
@@ -626,6 +655,28 @@ func (b *Builder) BuildBlock(spec BlockSpec) ([]byte, *block.Block, error) {
 		return nil, nil, w.Err
 	}
 	return w.Bytes(), blk, nil
+}
+
+// NoteFlows counts the flow labels of a block the builder has just added (depositsBefore: NotaryDeposits before it).
+func (b *Builder) NoteFlows(blk *block.Block, depositsBefore map[util.Uint160]int64) {
+	if b.Flow == nil { // builders assembled by hand
+		b.Flow = map[string]int{}
+	}
+	for _, l := range Flows(b.N.BC, blk, depositsBefore) {
+		b.Flow[l]++
+	}
+}
+
+// FlowLabels returns the flow labels seen so far, sorted.
+func (b *Builder) FlowLabels() []string {
+	var out []string
+	for l, n := range b.Flow {
+		if n > 0 {
+			out = append(out, l)
+		}
+	}
+	sort.Strings(out)
+	return out
 }
 
 // trackDeployments records contracts that now exist (after successful deploy txs) and drops destroyed ones.
@@ -684,6 +735,7 @@ func (b *Builder) Bootstrap() ([][]byte, error) {
 	dep := []Action{
 		{Kind: "deploy", From: 0, A: 0, Nonce: n},
 		{Kind: "deploy", From: 1, A: 1, Nonce: n + 1},
+		{Kind: "designate", From: 3, A: int(noderoles.Oracle), B: 7, Nonce: n + 5},
 	}
 	if b.N.Chain.P2PSig {
 		dep = append(dep,
